@@ -1,7 +1,7 @@
 (* IFF family, C09: the padding arithmetic of IffID3.save / _WaveID3.save.
    _prepare_data(fileobj, chunk.data_offset, chunk.data_size, ...): the callback sees
    info.padding = data_size of the ID3 chunk (0 for a chunk just created) - (frame data + 10) and
-   info.size = bytes from the chunk's data offset to EOF; a tag of the old payload size leaves the file size and every
+   info.size = the bytes that follow the chunk payload (pad byte and later chunks; the old tag does not count); a tag of the old payload size leaves the file size and every
    byte outside the chunk payload (+ pad byte) in place. *)
 From Coq Require Import ZArith List Bool Lia.
 Import ListNotations.
@@ -18,7 +18,7 @@ Notation HS := (hsize fl).
 (* what _prepare_data is told about a well-formed file: (available, trailing size) *)
 Definition iff_avail (s : iff_struct) : Z * Z :=
   match split_id3 fl (s_chunks s) with
-  | Some (_, c, post) => (zlen (cdata c), zlen (cdata c) + zlen (cpad c) + zlen (render_chunks fl post))
+  | Some (_, c, post) => (zlen (cdata c), zlen (cpad c) + zlen (render_chunks fl post))
   | None => (0, 0)
   end.
 
@@ -52,9 +52,10 @@ Proof.
   - destruct (split_id3_some fl _ _ _ _ Sp) as (Ecs & _ & _). rewrite Ecs in Hcs, Lf.
     apply chunks_ok_mid in Hcs as (_ & Hc & _). rewrite zlen_render_mid in Lf by (exact Hfl || exact Hc).
     cbn [rbind fst snd ce_ds ce_off] in *.
-    replace (zlen (iff_render fl s) - (HS + 4 + zlen (render_chunks fl pre) + HS))
-      with (zlen (cdata c) + zlen (cpad c) + zlen (render_chunks fl post)) in Hsv by (unfold csize in Lf; lia).
-    destruct (id3_prepare fd ver cb (zlen (cdata c)) (zlen (cdata c) + zlen (cpad c) + zlen (render_chunks fl post))) as [tag|e];
+    pose proof (zlen_nonneg (cpad c)) as Hpc. pose proof (zlen_nonneg (render_chunks fl post)) as Hpq.
+    replace (trailing_size (zlen (iff_render fl s)) (HS + 4 + zlen (render_chunks fl pre) + HS) (zlen (cdata c)))
+      with (zlen (cpad c) + zlen (render_chunks fl post)) in Hsv by (unfold trailing_size; unfold csize in Lf; lia).
+    destruct (id3_prepare fd ver cb (zlen (cdata c)) (zlen (cpad c) + zlen (render_chunks fl post))) as [tag|e];
       cbn [rbind] in Hsv; [|discriminate].
     exists tag. split; [reflexivity | exact Hsv].
   - destruct (fits fl (4 + zlen (render_chunks fl (s_chunks s)) + HS)) eqn:F; cbn [rbind] in *; [|discriminate].
@@ -66,8 +67,8 @@ Proof.
         replace (4 + (zlen (render_chunks fl (s_chunks s)) + HS)) with (4 + zlen (render_chunks fl (s_chunks s)) + HS) by lia. exact F. }
     pose proof (iff_render_zlen fl Hfl _ Hs1) as L1. cbn [s_chunks] in L1.
     rewrite render_chunks_app, zlen_app in L1. cbn [render_chunks] in L1. rewrite app_nil_r, render_new_chunk_zlen in L1 by exact Hfl.
-    replace (zlen (iff_render fl (mkIff (s_name s) (s_chunks s ++ [new_chunk fl]))) -
-             (HS + 4 + zlen (render_chunks fl (s_chunks s)) + HS)) with 0 in Hsv by lia.
+    replace (trailing_size (zlen (iff_render fl (mkIff (s_name s) (s_chunks s ++ [new_chunk fl]))))
+             (HS + 4 + zlen (render_chunks fl (s_chunks s)) + HS) 0) with 0 in Hsv by (unfold trailing_size; lia).
     destruct (id3_prepare fd ver cb 0 0) as [tag|e]; cbn [rbind] in Hsv; [|discriminate].
     exists tag. split; [reflexivity | exact Hsv].
 Qed.
